@@ -2,11 +2,13 @@
 \* arena::my_pool_state (atomic_flag SET/UNSET/busy), advertise_new_work<work_enqueued>, out_of_work,
 \* worker demand counter (arena::update_request total), enqueued-task stream (population abstracted to a count).
 EXTENDS Integers, Sequences, FiniteSets, TLC
-CONSTANTS Enq, Wrk, NTasks      \* NTasks[e] = tasks enqueued by enqueuer e
+CONSTANTS Enq, Wrk, NTasks,     \* NTasks[e] = tasks enqueued by enqueuer e
+          UNIQUE_BUSY          \* fact probed from the running code: the busy marker of a clear transaction is unique per transaction
+                               \* (the address of a local of try_clear_if); FALSE = one shared constant
 (* --algorithm poolstate {
   variables fifo = 0, flag = <<"U","-">>, demand = 0, executed = 0,
             inArena = [w \in Wrk |-> FALSE];
-  define { Busy(w) == <<"B", w>>  U == <<"U","-">>  S == <<"S","-">> }
+  define { Busy(w) == IF UNIQUE_BUSY THEN <<"B", w>> ELSE <<"B", "-">>  U == <<"U","-">>  S == <<"S","-">> }
   process (e \in Enq)
     variables n = 0, s = <<"U","-">>;
   {
@@ -37,8 +39,9 @@ CONSTANTS Enq, Wrk, NTasks      \* NTasks[e] = tasks enqueued by enqueuer e
     W5: if (flag = Busy(self)) { flag := U; goto W7 } else { goto W8 };
     W6: if (flag = Busy(self)) { flag := S }; goto W8;
     W7: demand := demand - 1;                           \* request_workers(-max)
-    \* worker keeps looping while the arena is not empty; leaves when recalled (demand = 0) or nothing to do
-    W8: if (fifo > 0) { goto W1 } else { inArena[self] := FALSE };
+    \* a worker keeps looping while the arena is not empty and it is not recalled; it leaves when recalled (demand = 0) or when there is nothing to do
+    \* (is_worker_should_leave looks at the recall request and at the worker's own task pool only, not at the FIFO stream)
+    W8: if (demand > 0 /\ fifo > 0) { goto W1 } else { inArena[self] := FALSE };
       }
   }
 } *)
@@ -46,7 +49,7 @@ CONSTANTS Enq, Wrk, NTasks      \* NTasks[e] = tasks enqueued by enqueuer e
 VARIABLES pc, fifo, flag, demand, executed, inArena
 
 (* define statement *)
-Busy(w) == <<"B", w>>  U == <<"U","-">>  S == <<"S","-">>
+Busy(w) == IF UNIQUE_BUSY THEN <<"B", w>> ELSE <<"B", "-">>  U == <<"U","-">>  S == <<"S","-">>
 
 VARIABLES n, s, st, has
 
@@ -188,7 +191,7 @@ W7(self) == /\ pc[self] = "W7"
             /\ UNCHANGED << fifo, flag, executed, inArena, n, s, st, has >>
 
 W8(self) == /\ pc[self] = "W8"
-            /\ IF fifo > 0
+            /\ IF demand > 0 /\ fifo > 0
                   THEN /\ pc' = [pc EXCEPT ![self] = "W1"]
                        /\ UNCHANGED inArena
                   ELSE /\ inArena' = [inArena EXCEPT ![self] = FALSE]
